@@ -54,6 +54,8 @@ struct Expect {
     /// host clusters found in the device's new-cluster set (allocated, mapped, not zeroed yet)
     /// right after a write_at call that returned Err
     left_new: std::collections::BTreeSet<u64>,
+    /// guest content of the backing chain below the top image (for the independent reader)
+    below: Option<Vec<u8>>,
 }
 
 /// Case predicate of a known finding: the violating guest cluster is mapped to a host cluster
@@ -161,6 +163,7 @@ fn run_one(case: &SeqCase, plan: Option<FaultPlan>, out: &mut FaultRun) -> Optio
         alts: BTreeMap::new(),
         kind_uncertain: vec![],
         left_new: Default::default(),
+        below: if case.layers.len() > 1 { Some(crate::model::chain_content(&case.layers, &layers.truths, 1)) } else { None },
     };
     ex.kind_uncertain = vec![false; ex.model.clusters()];
     let r = run_one_inner(case, &world, &mut ex, &mut out.stats, with_faults);
@@ -467,6 +470,20 @@ fn run_one_inner(case: &SeqCase, world: &World, ex: &mut Expect, st: &mut FaultS
         return Err(v.tag("after_heal").tag("reopened"));
     }
     st.reopen_compares += 1;
+    // the file alone, read by the independent reader (honours the header's l1_size etc.): a
+    // qcow2 image is an interchange format, "readable after reopen" is not limited to this library
+    {
+        match crate::spec::reader::read_guest(&bytes, ex.below.as_deref()) {
+            Ok(content) => {
+                let readable = std::cmp::min(content.len(), vsize as usize) / BLK * BLK;
+                if let Some(mut v) = ex.check(0, &content[..readable], "independent reader on the file after healing + flush") {
+                    v.rule = Rule::Reopen;
+                    return Err(v.tag("after_heal").tag("independent_reader"));
+                }
+            }
+            Err(e) => return Err(Violation::new(Rule::ReopenOpen, format!("independent reader rejects the file after healing + flush: {e}")).tag("after_heal").tag("independent_reader")),
+        }
+    }
     drop(dev);
     Ok(())
 }
